@@ -15,6 +15,7 @@ RULES = {
     "R-14.1": "the ordered ctx.update() inputs of _digest equal the RFC 8945 4.3 composition under every valuation of (first, request MAC present); multi-message continuation starts with the length-prefixed prior MAC",
     "R-14.2": "validate digests the message with ARCOUNT-1 cut at the TSIG, performs error/time/key/algorithm checks before the MAC check, and every normal return is dominated by ctx.verify(rdata.mac); HMAC verify is a constant-time comparison of the (possibly truncated) digest",
     "R-14.3": "HMACTSig._hashes and mac_sizes agree (keys, hash function per algorithm name, digest or truncated size)",
+    "R-14.6": "every transport verifies the response against the MAC of the query it sent: the request_mac handed to the response parser is the query's `.mac` (or the function's own request_mac parameter), never `.request_mac` of the query (b'' for a query); a TSIG-keyed transfer ends with a signed message",
     "R-14.5": "every signer entry point hands the request MAC (and, for multi-message signing, the running context) it was given to dns.tsig.sign; an unsigned intermediate message of a multi-message sequence is digested whole (RFC 8945 5.3.1)",
     "R-14.4": "a TSIG that is not the last record / class ANY / in ADDITIONAL raises BadTSIG (a FormError); Message.to_wire signs the wire produced after write_header()",
 }
@@ -283,6 +284,45 @@ def run(model, rep, tier):
     rep.check(len(ups) == 1 and [src(a) for a in ups[0].args] == ["self.parser.wire"], "R-14.5", rd5.qualname, where(rd5, ups[0] if ups else rd5.node),
               "an unsigned intermediate message is digested whole (self.parser.wire)", f"an unsigned intermediate message is digested as {[src(a) for c in ups for a in c.args]}, not as the whole message: "
               "a conforming signed/unsigned/signed sequence fails with BadSignature and part of the unsigned message is not authenticated", stmt="unsigned-intermediate-digest")
+    # ---------------------------------------------------------------- R-14.6
+    n_rm = 0
+    for f6 in sorted(model.all_functions(), key=lambda g: g.qualname):
+        if f6.module.name not in ("dns.query", "dns.asyncquery", "dns.nameserver", "dns.xfr"):
+            continue
+        for c in ast.walk(f6.node):
+            if not isinstance(c, ast.Call):
+                continue
+            vals = [k.value for k in c.keywords if k.arg == "request_mac"]
+            callee = model.functions.get(model.resolve_expr(f6, c.func))
+            if callee is not None and "request_mac" in callee.params() and not vals:
+                ps = [p_ for p_ in callee.params() if p_ not in ("self", "cls")]
+                i_ = ps.index("request_mac")
+                if len(c.args) > i_ and not any(isinstance(a, ast.Starred) for a in c.args):
+                    vals = [c.args[i_]]
+            for v in vals:
+                n_rm += 1
+                okk = (isinstance(v, ast.Name) and v.id == "request_mac" and "request_mac" in f6.params()) or (isinstance(v, ast.Attribute) and v.attr == "mac")
+                rep.check(okk, "R-14.6", f6.qualname, where(f6, c), f"`{src(c.func)}` verifies against `{src(v)}`",
+                          f"`{src(c.func)}` is given request_mac=`{src(v)}`: the response to a signed query is bound to the MAC computed when the query was rendered (`<query>.mac`); "
+                          "`.request_mac` of a query is b'', so a genuine signed response fails with BadSignature (and one bound to no request would verify)", stmt=f"request-mac {src(c.func)}")
+    rep.floor("R-14.6", n_rm, 12)
+    for qn in ("dns.query._inbound_xfr", "dns.asyncquery._inbound_xfr"):
+        fx = model.func(qn)
+        ends = []
+        for n in ast.walk(fx.node):
+            if isinstance(n, ast.If) and any(isinstance(b, ast.Raise) for b in n.body):
+                at = set(atoms(normalise_compare(n.test)))
+                if any(a[0].endswith(".had_tsig") for a in at) or any(a[0].endswith(".tsig_ctx") for a in at) and any(a[0] == "query.keyring" for a in at):
+                    ends.append((n, at))
+        okk = len(ends) == 1 and any(a[0] == "query.keyring" and a[1] == "truthy" for a in ends[0][1]) and any(a[0].endswith(".had_tsig") and a[1] == "falsy" for a in ends[0][1])
+        rep.check(okk, "R-14.6", fx.qualname, where(fx, ends[0][0] if ends else fx.node), "a keyed transfer whose last message carried no TSIG is refused (`query.keyring and not r.had_tsig`)",
+                  "the end-of-transfer test is no longer `query.keyring and not <last>.had_tsig`: " + (f"it tests {sorted(ends[0][1])}" if ends else "not found") +
+                  " - the running context is set on every message after the first signed one, so only had_tsig tells whether the LAST message was signed (an unsigned forged tail is accepted)", stmt="last-message-signed")
+        fw = [c for c in ast.walk(fx.node) if isinstance(c, ast.Call) and src(c.func) == "dns.message.from_wire"]
+        kw = {k.arg: src(k.value) for c in fw for k in c.keywords}
+        chained = pat.has(fx.node, f"{kw.get('tsig_ctx', '__none')} = __r.tsig_ctx") if kw.get("tsig_ctx") else False
+        rep.check(len(fw) == 1 and bool(chained) and "multi" in kw, "R-14.6", fx.qualname, where(fx, fw[0] if fw else fx.node), "each message is verified with the context left by the previous one",
+                  f"the multi-message context is not chained through the receive loop (tsig_ctx={kw.get('tsig_ctx')}, multi={kw.get('multi')})", stmt="ctx-chained")
     rep.meta["explanation"] = (
         "Ordered-effect projection of dns.tsig._digest: for each valuation of (first, request MAC present) the feasible CFG paths are walked and the arguments of ctx.update are "
         "flattened into typed tokens (struct formats expanded, concatenations split, locals substituted) and compared with the RFC 8945 4.3 table held in the checker - an independent "
@@ -290,6 +330,11 @@ def run(model, rep, tier):
 
 
 WITNESSES = [
+    {"id": "c14-doh-verifies-against-request-mac", "rule": "R-14.6", "file": "dns/query.py", "expect": "fires",
+     "old": "        keyring=q.keyring,\n        request_mac=q.mac,\n        one_rr_per_rrset=one_rr_per_rrset,\n        ignore_trailing=ignore_trailing,\n    )\n    r.time = response.elapsed.total_seconds()",
+     "new": "        keyring=q.keyring,\n        request_mac=q.request_mac,\n        one_rr_per_rrset=one_rr_per_rrset,\n        ignore_trailing=ignore_trailing,\n    )\n    r.time = response.elapsed.total_seconds()"},
+    {"id": "c14-xfr-last-message-test-on-context", "rule": "R-14.6", "file": "dns/query.py", "expect": "fires",
+     "old": "        if query.keyring and r is not None and not r.had_tsig:", "new": "        if query.keyring and r is not None and r.tsig_ctx is None:"},
     {"id": "c14-add-tsig-drops-request-mac", "rule": "R-14.5", "file": "dns/renderer.py", "expect": "fires",
      "old": "        tsig, _ = dns.tsig.sign(s, key, tsig[0], int(time.time()), request_mac)", "new": "        tsig, _ = dns.tsig.sign(s, key, tsig[0], int(time.time()))"},
     {"id": "c14-unsigned-intermediate-without-id", "rule": "R-14.5", "file": "dns/message.py", "expect": "fires",
